@@ -179,8 +179,17 @@ func (V *Verifier) newFuncCtx(fi *FuncInfo, fct *FuncContract) *FuncCtx {
 	fc := &FuncCtx{V: V, Pkg: fi.Pkg, Name: fi.Pkg.Name + "." + fi.Key, Decl: fi.Decl, Contract: fct, curContract: fct,
 		declared: map[string]bool{}, oblCount: map[string]int{}, loopOrd: map[ast.Stmt]int{}, callOrd: map[*ast.CallExpr]int{}, heapSorts: map[string]string{}}
 	n, c := 0, 0
+	fc.promote = map[types.Object]bool{}
 	ast.Inspect(fi.Decl, func(x ast.Node) bool {
 		switch s := x.(type) {
+		case *ast.SliceExpr:
+			if id, ok := ast.Unparen(s.X).(*ast.Ident); ok {
+				if obj := fi.Pkg.Info.ObjectOf(id); obj != nil {
+					if _, isArr := obj.Type().Underlying().(*types.Array); isArr {
+						fc.promote[obj] = true
+					}
+				}
+			}
 		case *ast.ForStmt:
 			n++
 			fc.loopOrd[s] = n
@@ -433,6 +442,31 @@ func (V *Verifier) verifyFuncMode(fi *FuncInfo, fct *FuncContract, ceUnroll int)
 		st.execGhost(g, bodyPos)
 	}
 	st.runAnchor("begin", bodyPos)
+	if isInit && pc != nil {
+		// package-level variable initialisers run before init(): executed here for the globals that have invariants
+		for _, f := range fi.Pkg.Files {
+			for _, d := range f.Decls {
+				gd, ok := d.(*ast.GenDecl)
+				if !ok || gd.Tok != token.VAR {
+					continue
+				}
+				for _, sp := range gd.Specs {
+					vs := sp.(*ast.ValueSpec)
+					if len(vs.Values) != len(vs.Names) {
+						continue
+					}
+					for i, name := range vs.Names {
+						if pc.Globals[name.Name] == nil {
+							continue
+						}
+						if vo, ok := fi.Pkg.Info.Defs[name].(*types.Var); ok {
+							st.assignGlobal(vo, st.coerce(st.eval(vs.Values[i]), vo.Type()))
+						}
+					}
+				}
+			}
+		}
+	}
 	outs := st.execBlock(fi.Decl.Body.List)
 	fc.paths = len(outs)
 	for _, o := range outs {
